@@ -54,7 +54,7 @@ func c15Judge(env *hx.Env, files hx.Files, m c15Meta) (hx.Verdict, *cliRun) {
 			allowed[r.rel(filepath.Join(dir, filepath.Base(abs)))] = true
 		}
 	}
-	if sc.OutKind == "is-input" || sc.OutKind == "is-input-alias" {
+	if strings.HasPrefix(sc.OutKind, "is-input") {
 		delete(allowed, sc.Input)
 		delete(allowed, r.rel(r.OutAbs)) // the setup file is never modified, whatever the flags say
 	}
@@ -114,7 +114,7 @@ func TestC15(t *testing.T) {
 	}
 	rec.ReplayTier(judgeCase)
 
-	outKinds := []string{"", "", "same-dir", "cwd", "abs", "nested-dir", "missing-dir", "is-dir", "log-ext", "is-input", "is-input-alias", "odd-stem-g", "odd-stem-o", "odd-stem-dot", "no-ext", "long-ext"}
+	outKinds := []string{"", "", "same-dir", "cwd", "abs", "nested-dir", "missing-dir", "is-dir", "log-ext", "is-input", "is-input-alias", "is-input-symlink", "is-input-hardlink", "odd-stem-g", "odd-stem-o", "odd-stem-dot", "no-ext", "long-ext"}
 	pres := []string{"absent", "other", "identical", "stale-broken", "longer"}
 	rapidRun(t, env, "inputs", env.Pick(64, 600), func(rt *rapid.T) {
 		p := genSmallProg(rt)
